@@ -33,7 +33,7 @@ COQ_IMPORTS = "From Coq Require Import QArith PrimFloat.\nFrom Orso Require Impo
 COQ_CHECKS = {"f": "c13_check_f", "q": "c13_check_q"}
 COQ_SHOW = {"f": "c13_show_f", "q": "c13_show_q"}
 MODEL_VOS = ["Model/C13.vo", "Model/C13_F.vo", "Model/C13_Q.vo"]
-RULE = ("programs over up to three histograms: weighted update histories (dense / sparse / repeated / negative / integral / widely scaled / adjacent-binary64 "
+RULE = ("programs over up to four histograms (incl. an accumulator, often empty and smaller than the parts, into which parts are merged / added): weighted update histories (dense / sparse / repeated / negative / integral / widely scaled / adjacent-binary64 "
         "values, caps 2..64), + of independently built histograms, bare merge, bulk loads below and above 5*cap distinct values, dump/load followed by "
         "more updates; every state after every step is compared; non-trivial = at least one trim or in-place merge happened (bins < distinct values); "
         "distinct by canonical JSON")
@@ -318,14 +318,26 @@ def _updates(rng, k, n, profile, mode):
 
 def _program(rng, mode, tier):
     big = 60 if mode == "f" else 18
-    kind = rng.choice(["upd", "upd", "upd", "add", "merge", "bulk", "load"] if mode == "f" else ["upd", "upd", "add", "merge", "load"])
+    kind = rng.choice(["upd", "upd", "upd", "add", "merge", "bulk", "load", "fold"] if mode == "f" else ["upd", "upd", "add", "merge", "load", "fold"])
     prof = rng.choice(PROFILES)
     cap = _cap(rng) if mode == "f" else rng.choice([2, 3, 4, 6])
     prog = [["new", 0, cap]]
     if kind == "upd":
         prog += _updates(rng, 0, rng.randint(1, big), prof, mode)
+    elif kind == "fold":
+        # an accumulator (often still empty, often smaller than the parts) into which independently
+        # built parts are merged / added one after the other
+        if rng.random() < 0.4:
+            prog += _updates(rng, 0, rng.randint(1, 6), prof, mode)
+        for j in range(1, rng.randint(2, 3) + 1):
+            prog += [["new", j, rng.choice([cap, cap + 1, 2 * cap + 3, 16]) if mode == "f" else rng.choice([cap, cap + 2, 7])]]
+            prog += _updates(rng, j, rng.randint(1, big // 3), rng.choice(PROFILES), mode)
+            prog += [[rng.choice(["merge", "add"]), 0, j]]
+            if rng.random() < 0.5:
+                prog += _updates(rng, 0, rng.randint(1, 4), prof, mode)
     elif kind in ("add", "merge"):
-        prog += _updates(rng, 0, rng.randint(1, big // 2), prof, mode)
+        # the left operand is sometimes still empty (a fresh accumulator)
+        prog += _updates(rng, 0, rng.choice([0, rng.randint(1, big // 2), rng.randint(1, big // 2)]), prof, mode)
         prog += [["new", 1, _cap(rng) if mode == "f" else rng.choice([2, 3, 5])]]
         prog += _updates(rng, 1, rng.randint(1, big // 2), rng.choice(PROFILES), mode)
         prog += [[kind, 0, 1]]
@@ -352,6 +364,10 @@ def _program(rng, mode, tier):
 
 def corpus():
     h = lambda x: float(x).hex()
+    # an empty accumulator of capacity 3 receiving a fuller histogram through merge / + (round-2 seeded change)
+    for kind in ("merge", "add"):
+        yield {"mode": "f", "prog": [["new", 0, 3], ["new", 1, 8]] + [["upd", 1, h(v), 1] for v in (1, 9, 4, 30, 16, 2, 50, 25)] +
+               [[kind, 0, 1], ["upd", 0, h(9), 2], ["upd", 0, h(17), 1]]}
     # F-C13-1: bulkload above threshold (midpoint precedence) - arange(100) on a small histogram
     yield {"mode": "f", "prog": [["new", 0, 4], ["bulk", 0, [h(i) for i in range(100)]]]}
     # F-C13-2: load followed by updates (gap cache)
@@ -378,10 +394,29 @@ def search(rng):
         yield _program(rng, "q" if rng.random() < 0.2 else "f", "thorough")
 
 
+def _well_formed(prog):
+    filled = set()
+    for op in prog:
+        if op[0] in ("upd", "bulk", "loadb"):
+            filled.add(op[1])
+        elif op[0] in ("add", "merge"):
+            if op[0] == "add" and op[2] not in filled:
+                return False                      # "+" with an empty right operand raises by design
+            if op[2] in filled:
+                filled.add(op[1])
+    return True
+
+
 def shrink(case):
+    for c in _shrink(case):
+        if _well_formed(c["prog"]):
+            yield c
+
+
+def _shrink(case):
     prog = case["prog"]
     for i in range(len(prog) - 1, 0, -1):
-        if prog[i][0] in ("upd", "load", "bulk"):
+        if prog[i][0] in ("upd", "load", "bulk", "merge", "add"):
             yield dict(case, prog=prog[:i] + prog[i + 1:])
     for i, op in enumerate(prog):
         if op[0] == "bulk" and len(op[2]) > 1:
